@@ -1596,6 +1596,8 @@ pub fn locate_glyf(d: &[u8], offsets: &[usize], rng: &mut Rng) -> Vec<Field> {
     {
         let cap = *rng.pick(&[4usize, 16, 64, 4096]);
         let max_levels = 2 + rng.usize_below(5);
+        // ARGS_ARE_XY_VALUES, or point matching (arguments are point numbers)
+        let xy: u16 = if rng.pct(65) { 0x0002 } else { 0 };
         let mut block: Vec<u8> = Vec::new();
         let mut levels = 0;
         let mut gi = g;
@@ -1609,7 +1611,7 @@ pub fn locate_glyf(d: &[u8], offsets: &[usize], rng: &mut Rng) -> Vec<Field> {
             gl.extend_from_slice(&(-1i16).to_be_bytes());
             gl.extend_from_slice(&d[a + 2..a + 10]);
             for j in 0..k {
-                let flags: u16 = if j + 1 < k { 0x0022 } else { 0x0002 };
+                let flags: u16 = if j + 1 < k { 0x0020 | xy } else { xy };
                 gl.extend_from_slice(&flags.to_be_bytes());
                 gl.extend_from_slice(&((gi + 1) as u16).to_be_bytes());
                 gl.extend_from_slice(&[0, 0]);
